@@ -355,6 +355,10 @@ fn eval_conf(job: &Job) -> JobResult {
             res.violations.push(viol(kind, sum.verdict.short(), "Ok".into(), msg, json!({})));
             return res;
         }
+        if job.extra.get("mode").and_then(|v| v.as_str()) == Some("verdict_only") {
+            res.traces_validated += col.iters;
+            return res;
+        }
         // attribution (for the known-findings list): is the outcome also missing from the
         // reference in which a thread yields after its spurious `Notify::wait` return (D20)?
         let mut restricted: Option<scm::ScResult> = None;
